@@ -204,7 +204,10 @@ func (s *Translator) Enter(expression cypher.SyntaxNode) {
 
 	case *cypher.Parameter:
 		var (
-			cypherIdentifier = pgsql.Identifier(typedExpression.Symbol)
+			// Parameters live in their own namespace: $p and a variable p are unrelated. The scope's alias
+			// table is shared with variables, so key parameters by their "$" prefixed spelling, which no
+			// variable can have.
+			cypherIdentifier = pgsql.Identifier("$" + typedExpression.Symbol)
 			binding, bound   = s.scope.AliasedLookup(cypherIdentifier)
 		)
 
@@ -213,7 +216,7 @@ func (s *Translator) Enter(expression cypher.SyntaxNode) {
 				s.SetError(err)
 			} else {
 				// Alias the old parameter identifier to the synthetic one
-				if cypherIdentifier != "" {
+				if typedExpression.Symbol != "" {
 					s.scope.Alias(cypherIdentifier, parameterBinding)
 				}
 
